@@ -33,6 +33,9 @@ def families(tier, seed):
         # coarse sampling (sampling step larger than the delays): the history must still contain every accepted step
         out.append(dict(tag=f"{tag}/run-coarse/scipy", features=dict(feats, solver="scipy", coarse=True), kind="dde_run", model=model,
                         solver="scipy", T=2.0, dts=1.0))
+    out.append(dict(tag="H14-complex-valued-delayed-model", features=dict(complex=True), kind="complex_delay"))
+    for vec in (False, True):
+        out.append(dict(tag="H15-float32-edge-delays", features=dict(float32_delay=True, vec=vec), kind="float32_delay", vec=vec))
     for vec in (False, True):
         out.append(dict(tag="H13-per-node-delay-parameter", features=dict(param_delay=True, vec=vec), kind="param_delay", vec=vec))
     return out
@@ -68,7 +71,87 @@ def param_delay_case(c):
     return dict(status="violated" if fails else "ok", fails=fails)
 
 
+def complex_delay_case(c):
+    """A complex-valued delayed model (float_precision='complex128'): the DEFAULT history object keeps the complex initial state, the
+    delayed term reads the complex past, and a short Heun run follows the Heun iterates of the complex DDE."""
+    import numpy as np
+    from pyrates import OperatorTemplate, NodeTemplate, CircuitTemplate
+    omega, k, d, z0 = 2.0, -0.5, 0.2, 1.0 + 0.5j
+    dt, T = 0.01, 0.6
+
+    def build():
+        op = OperatorTemplate(name="sl_op", equations=["z' = i*omega*z + k*z(t-d)"],
+                              variables={"z": f"output({z0.real}+{z0.imag}j)", "i": "0.0+1.0j", "omega": omega, "k": k, "d": d}, path=None)
+        return CircuitTemplate(name="sl_net", nodes={"p": NodeTemplate(name="sl_pop", operators=[op], path=None)})
+    fails = []
+    try:
+        f, a, names, m = build().get_run_func("vf", step_size=dt, vectorize=False, verbose=False, float_precision="complex128", file_name="cx_mod",
+                                              solver="heun")
+        hist = a[list(names).index("hist")]
+        h0 = np.asarray(hist(-0.25)).reshape(-1)[0]
+        if not np.iscomplexobj(np.asarray(hist(-0.25))) or abs(h0 - z0) > 1e-12:
+            fails.append(dict(clause="the default history returns the (complex) initial state for times before the start", observed=str(h0), expected=str(z0)))
+        res = build().run(simulation_time=T, step_size=dt, solver="heun", outputs={"z": "p/sl_op/z"}, verbose=False, float_precision="complex128")
+        got = np.asarray(res.values).reshape(-1)
+    except Exception as exn:
+        return dict(status="violated", fails=[dict(clause="a complex-valued delayed model compiles and runs", observed=f"{type(exn).__name__}: {exn}"[:300])])
+    # Heun iterates of z' = i*omega*z + k*z(t - d) with linear interpolation of the recorded steps (d is a multiple of dt)
+    n, nd = int(round(T / dt)), int(round(d / dt))
+    z = np.empty(n + 1, dtype=complex)
+    z[0] = z0
+
+    def past(j):
+        return z0 if j - nd <= 0 else z[j - nd]
+    for j in range(n):
+        f1 = 1j * omega * z[j] + k * past(j)
+        zp = z[j] + dt * f1
+        f2 = 1j * omega * zp + k * past(j)
+        z[j + 1] = z[j] + dt / 2 * (f1 + f2)
+    ref = z[:n]
+    if not fails and (got.shape != ref.shape or not np.allclose(got, ref, rtol=1e-7, atol=1e-9)):
+        bad = int(np.argmax(np.abs(got - ref))) if got.shape == ref.shape else -1
+        fails.append(dict(clause="run(heun) of a complex delayed model equals the Heun iterates of the complex DDE", row=bad,
+                          observed=str(got[bad]) if bad >= 0 else list(got.shape), expected=str(ref[bad]) if bad >= 0 else list(ref.shape)))
+    return dict(status="violated" if fails else "ok", fails=fails)
+
+
+def float32_delay_case(c):
+    """Edge delays given as numpy float32 (e.g. a single-precision delay matrix) under an adaptive solver: still delays."""
+    import numpy as np
+    from pyrates import OperatorTemplate, NodeTemplate, CircuitTemplate
+    op = OperatorTemplate(name="op", equations=["r' = -r/tau + r_in"], variables={"r": "output(0.4)", "tau": 2.0, "r_in": "input(0.0)"}, path=None)
+    nt = NodeTemplate(name="nt", operators=[op], path=None)
+    tpl = CircuitTemplate(name="n32", nodes={"p1": nt, "p2": nt},
+                          edges=[("p1/op/r", "p2/op/r_in", None, {"weight": 1.5, "delay": np.float32(0.75)}),
+                                 ("p2/op/r", "p1/op/r_in", None, {"weight": -0.5, "delay": np.float32(1.25)})])
+    try:
+        f, a, names, m = tpl.get_run_func("vf", step_size=1e-2, vectorize=c["vec"], verbose=False, float_precision="float64", file_name="f32_mod", solver="scipy")
+    except Exception as exn:
+        return dict(status="violated", fails=[dict(clause="a model with float32 edge delays compiles", observed=f"{type(exn).__name__}: {exn}"[:300])])
+    if "hist" not in names:
+        return dict(status="violated", fails=[dict(clause="delayed model: the compiled function takes a history argument", observed=list(names)[:6])])
+    asked = []
+
+    def H(t):
+        asked.append(round(float(t), 6))
+        return np.array([np.sin(3 * t), np.cos(2 * t)])
+    args = list(a)
+    args[list(names).index("hist")] = H
+    y = np.array([0.2, -0.4])
+    got = np.array(f(2.0, y.copy(), *args[2:]), dtype=float).reshape(-1)
+    want = np.array([-0.2 / 2.0 - 0.5 * H(2.0 - 1.25)[1], 0.4 / 2.0 + 1.5 * H(2.0 - 0.75)[0]])
+    fails = []
+    if not np.allclose(got, want, rtol=1e-6, atol=1e-9):
+        fails.append(dict(clause="delayed edges (float32 delays) read component x of hist(t - tau)", observed=got.tolist(), expected=want.tolist(),
+                          queried=sorted(set(asked))[:6]))
+    return dict(status="violated" if fails else "ok", fails=fails)
+
+
 def case_fn(c):
+    if c["kind"] == "complex_delay":
+        return complex_delay_case(c)
+    if c["kind"] == "float32_delay":
+        return float32_delay_case(c)
     if c["kind"] == "param_delay":
         return param_delay_case(c)
     return cases.case_fn(c)
